@@ -214,9 +214,13 @@ def gw(prop, level_text, explanation, technique="Lean 4 theorem over the hand-wr
 PROPS.update({
     "C01": gw("C01",
               "Lean theorems c01_forward / c01_name / c01_drop about the model of the client-PUBLISH handler for ALL states and field values (exactly one MQTT "
-              "PUBLISH with the same payload/flags/QoS/message ID and the name the topic ID denotes; nothing forwarded otherwise); the whole-trace statement "
-              "(Spec.c01, incl. 'registered in this session') is checked as a monitor on every implementation trace; tie: gateway suite",
-              "theorems c01_forward, c01_name, c01_drop (one-step, all states); monitor Spec.c01 on implementation traces (whole sessions)"),
+              "PUBLISH with the same payload/flags/QoS/message ID and the name the topic ID denotes; nothing forwarded otherwise); ALL RUNS: "
+              "c01_publish_only_for_publish_datagram (in ANY reachable state ANY event that is not a PUBLISH datagram - other datagrams, broker packets, every timer "
+              "and retransmission, EOF, shutdown, the session end - writes no MQTT PUBLISH), c01_at_most_one_per_datagram, c01_publishes_bounded (frame F1 carried "
+              "through every model function, Lemmas/GwPub.lean); which name a topic ID denotes over a whole session ('registered in this session') is checked by the "
+              "monitor Spec.c01 on every implementation trace; tie: gateway suite",
+              "theorems c01_forward, c01_name, c01_drop (one-step, all states) + c01_publish_only_for_publish_datagram / c01_at_most_one_per_datagram / "
+              "c01_publishes_bounded (all runs); monitor Spec.c01 on implementation traces (whole sessions)"),
     "C14": gw("C14",
               "Lean theorem c14: from ANY reachable state of the gateway model, handling ANY event other than a datagram decoding to a plain DISCONNECT "
               "(incl. all timers firing on the way and the session end) emits no MQTT DISCONNECT; c14_end: the session end closes the broker connection; "
@@ -264,9 +268,11 @@ PROPS.update({
               "theorems c08_* (one-step, all states); monitor Spec.c0809 (C08 rules) on implementation traces"),
     "C09": gw("C09",
               "Lean theorems c09_will_topicreq, c09_nowill, c09_willtopic(_ignored), c09_will_fields, c09_willmsg(_ignored), c09_one_connect, c09_connack(_ignored), "
-              "c09_zero_keepalive about the model's connect exchange for ALL states and inputs; whole-exchange statement checked by the monitor Spec.c0809; "
-              "tie: gateway suite (connect profile)",
-              "theorems c09_* (one-step, all states); monitor Spec.c0809 (C09 rules) on implementation traces"),
+              "c09_zero_keepalive about the model's connect exchange for ALL states and inputs; ALL RUNS: c09_connects_bounded (after ANY event sequence the number of MQTT "
+              "CONNECT packets written is at most the number of CONNECT datagrams received: each exchange writes at most one and nothing else ever writes one; potential "
+              "argument F9 / I9 carried through every model function, Lemmas/GwConnCount.lean); the order of the will exchange over a whole session is checked by the "
+              "monitor Spec.c0809; tie: gateway suite (connect profile)",
+              "theorems c09_* (one-step, all states) + c09_connects_bounded (all runs); monitor Spec.c0809 (C09 rules) on implementation traces"),
     "C10": gw("C10",
               "Lean theorems c10_deadline (timer at now + connectTransactionTimeout = 5000 ms, constant regenerated from the source), c10_timer_kept_* (no step of the "
               "exchange re-arms or stops it), c10_expire (expiry on an unfinished exchange cancels the session with the timeout error, C13 then closes the broker "
